@@ -89,6 +89,8 @@ structure Run where
 
 def Run.WF (r : Run) : Prop := r.start ≤ r.ended ∧ r.ended ≤ r.patched
 
+instance (r : Run) : Decidable r.WF := by unfold Run.WF; infer_instance
+
 def Run.out (cfg : Cfg) (r : Run) : Outcome := classify cfg r.attempt r.res
 
 /-- `retry` kwarg of the following run: the state is reset exactly when it is done. -/
@@ -177,6 +179,13 @@ inductive Chain (cfg : Cfg) (view : View) : Run → List Run → Prop where
 def Sched (cfg : Cfg) (view : View) (spawn : Int) : List Run → Prop
   | [] => True
   | r :: rs => First cfg view spawn r.start ∧ r.WF ∧ r.attempt = 0 ∧ Chain cfg view r rs
+
+/-! ### When `idle_reset_time` is written (`processing._detect_causes` / `process_spawning_cause`)
+
+`reset = bool(diff(old, new))` where `old` is the essence stored on the object as LAST HANDLED
+(`none`: nothing stored, e.g. no change handlers at all) and `new` the essence of the event's body —
+not the essence of the previously seen version. Essences are abstracted to `Nat`. -/
+def resetsIdle (lastHandled : Option Nat) (new : Nat) : Bool := lastHandled != some new
 
 /-! ### Executable form (for the step comparison with the real operator)
 
